@@ -1,5 +1,3 @@
-//go:build seamed
-
 // Package detsim is engine E-D: determinism of plans, HCL, formatted files and directory
 // sums under map-iteration order (a seam made by /verif/maprw in a scratch copy of the
 // repository), declaration order, and interleaving of independent operations.
@@ -23,7 +21,6 @@ import (
 	"ariga.io/atlas/sql/postgres"
 	"ariga.io/atlas/sql/schema"
 	"ariga.io/atlas/sql/sqlite"
-	"ariga.io/atlas/verifmap"
 	"github.com/hashicorp/hcl/v2/hclparse"
 	"github.com/zclconf/go-cty/cty"
 
@@ -637,8 +634,8 @@ func C20(r *simkit.Run) {
 	const prop = "C20"
 	t := r.T
 	sc := genScenario(t)
-	verifmap.SetSeed(0)
-	verifmap.ResetHits()
+	setSeed(0)
+	resetHits()
 	base := sc.ops(nil)
 	for _, o := range base {
 		if err := o.run(); err != nil {
@@ -661,7 +658,7 @@ func C20(r *simkit.Run) {
 	// (1) Map order: the same operations under other iteration orders.
 	for i, n := 0, t.Range("map-seeds", 2, 4); i < n && !r.Failed(); i++ {
 		seed := uint64(1 + t.Draw("map-seed", 1<<30))
-		verifmap.SetSeed(seed)
+		setSeed(seed)
 		r.Fired("map-order-permuted")
 		r.Step()
 		for k, o := range sc.ops(nil) {
@@ -676,8 +673,8 @@ func C20(r *simkit.Run) {
 		}
 		r.Logf("map seed #%d ok", i)
 	}
-	verifmap.SetSeed(0)
-	for site, n := range verifmap.Hits() {
+	setSeed(0)
+	for site, n := range hits() {
 		if n > 0 {
 			r.Probe("site:" + site)
 		}
@@ -819,8 +816,8 @@ func C20Procs(r *simkit.Run) {
 func ProcDigest(seed, mapSeed uint64) string {
 	t := simkit.NewTape(seed)
 	sc := genScenario(t)
-	verifmap.SetSeed(mapSeed)
-	defer verifmap.SetSeed(0)
+	setSeed(mapSeed)
+	defer setSeed(0)
 	var all []byte
 	for _, o := range sc.ops(nil) {
 		if err := o.run(); err != nil {
